@@ -8,6 +8,7 @@ CONSTANTS
   BadJs <- HdrBadJs
   Acts <- HdrActs
   CondCodes <- HdrCondCodes
+  OneShot <- HdrOneShot
   MaxFacts <- HdrMax
 CONSTRAINT Mark
 POSTCONDITION Accepted
